@@ -74,6 +74,19 @@ class C17(Check):
             for l in itertools.product(elems, repeat=n):
                 for i in ["", ",", " ", ", ", "a"]:
                     yield "join %s %s" % (hx(i), wl(l)), "join-exh"
+        # non-string elements (join renders them through a stringstream)
+        for n in range(0, 5):
+            for _ in range(20 if tier == "quick" else 200):
+                l = [rng.choice([0, 1, -1, 7, 10, -42, 123456789, 2**40]) for _ in range(n)]
+                yield "joini %s %s" % (hx(rng.choice(["", ",", " ", "0", "-"])), ",".join(str(x) for x in l) or "."), "join-ints"
+        # very long inputs: many occurrences, overlapping patterns, replacement containing the pattern
+        for n in ([20000] if tier == "quick" else [20000, 200000]):
+            yield "replace %s %s %s" % (hx("aa"), hx("a"), hx("a" * n)), "long"
+            yield "replace %s %s %s" % (hx("a"), hx("aa"), hx("ab" * (n // 2))), "long"
+            yield "replace %s %s %s" % (hx("ab"), hx("xaby"), hx("ab" * (n // 2))), "long"
+            yield "split %s %s" % (hx("a"), hx("a" * n)), "long"
+            yield "split %s %s" % (hx("ab"), hx("abab" * (n // 4) + "a")), "long"
+            yield "starts %s %s" % (hx("a" * n), hx("a" * (n - 1) + "b")), "long"
         # random long strings, needle drawn from the string itself so that it occurs
         R = 4000 if tier == "quick" else 40000
         for _ in range(R):
@@ -105,7 +118,7 @@ class C17(Check):
             return w[1] != "-" and unhx(w[1]) in unhx(w[3])
         if w[0] == "starts":
             return w[2] != "-"
-        if w[0] == "join":
+        if w[0] in ("join", "joini"):
             return "," in w[2]
         return False
 
